@@ -79,6 +79,22 @@ func (b *rtBuilder) term(t []J) string {
 	case "atom":
 		s := atomSamples[t[1].(string)]
 		return b.atom(s[b.r.Intn(len(s))])
+	case "share2", "sharelist", "shareop":
+		x := b.term(t[1].([]J)) // built once, used twice
+		v := b.v()
+		switch t[0].(string) {
+		case "share2":
+			b.goals = append(b.goals, fmt.Sprintf("'=..'(%s, [g, %s, %s])", v, x, x))
+		case "sharelist":
+			b.goals = append(b.goals, fmt.Sprintf("'='(%s, [%s, b, %s])", v, x, x))
+		default:
+			b.goals = append(b.goals, fmt.Sprintf("'=..'(%s, [:-, %s, %s])", v, x, x))
+		}
+		return v
+	case "dqpair":
+		v := b.v()
+		b.goals = append(b.goals, fmt.Sprintf("'='(%s, f(\"ab\", \"ab\", [\"ab\"]))", v))
+		return v
 	case "atomtext":
 		// AtomText.tla: the name is given character by character (numbers into atomTextChars)
 		var name []rune
